@@ -67,7 +67,7 @@ class Store:
     @staticmethod
     def text(ident, k):
         realm, ns, name = ident
-        return "[%s|%s|%s|%d]{{ g }}{{ site }}" % (realm, ns, name, k)
+        return "[%s|%s|%s|%d]{{ g }}{{ site }}{{ m }}" % (realm, ns, name, k)
 
     def versions(self, ident):
         return self.entries.get(ident, [])
@@ -406,6 +406,12 @@ class C23:
                   "name": name, "ns": ns, "via": via, "globals": g}
             if ctx_ns is not None:
                 op["ctx_ns"] = ctx_ns
+            if via.startswith("tag:") and use_ns and rng.chance(0.25):
+                # the wrapper template binds a LOCAL variable named like the namespace key before it
+                # includes the partial: namespaces are read from the render context's globals, never its locals
+                op["local_ns"] = rng.choice(["u1", "u2", 0])
+            if via == "ctx" and rng.chance(0.5):
+                op["ctx_reuse"] = True     # the caller keeps ONE render context for all its requests
             if config == "fault" and op["mode"] == "async" and rng.chance(0.25):
                 op["cancel_after"] = round(rng.random() * 0.02, 5)
             return op
@@ -614,6 +620,7 @@ class C23:
             bump(st, "sut.loader_without_cache_attribute")
         cap = sc["capacity"]
         first_req = {}          # cache key -> seq of the first request for it
+        kept_contexts = {}      # render contexts a caller re-uses for several requests
         in_flight_async = [0]
         flags = {"hit": 0, "reload": 0, "evict": 0, "sync_during_async": 0, "ns_switch": 0}
         last_ns_for_name = {}
@@ -630,13 +637,24 @@ class C23:
                 if ns is not None:
                     kwargs[NS_KEY] = ns
             elif via == "ctx":
-                kwargs["context"] = RenderContext(env.from_string(""), globals={NS_KEY: ns} if ns is not None else {})
+                gl = {NS_KEY: ns} if ns is not None else {}
+                if op.get("ctx_reuse") and not inline:
+                    key = ("ctx", id(env), repr(ns))
+                    if key not in kept_contexts:
+                        kept_contexts[key] = RenderContext(env.from_string(""), globals=gl)
+                    kwargs["context"] = kept_contexts[key]
+                else:
+                    kwargs["context"] = RenderContext(env.from_string(""), globals=gl)
             elif via == "both":
                 kwargs[NS_KEY] = ns
                 kwargs["context"] = RenderContext(env.from_string(""), globals={NS_KEY: op["ctx_ns"]})
             if via.startswith("tag:"):
                 tag = via[4:]
-                wrapper = env.from_string("<{%% %s '%s' %%}>" % (tag, name), globals=g)
+                pre = ""
+                if op.get("local_ns") is not None and tag != "extends":
+                    pre = "{%% assign %s = %s %%}" % (NS_KEY, ("'%s'" % op["local_ns"]) if isinstance(op["local_ns"], str)
+                                                     else op["local_ns"])
+                wrapper = env.from_string("<%s{%% %s '%s' %%}>" % (pre, tag, name), globals=g)
                 data = {NS_KEY: ns} if ns is not None else {}
                 if op["mode"] == "sync":
                     return lambda: wrapper.render(**data)
